@@ -1,0 +1,12 @@
+//go:build verif
+
+package validate
+
+import (
+	batchv1alpha1 "volcano.sh/apis/pkg/apis/batch/v1alpha1"
+)
+
+// TopoSortForVerif exposes topoSort (order, isDag) to the verification harness.
+func TopoSortForVerif(job *batchv1alpha1.Job) ([]string, bool) {
+	return topoSort(job)
+}
